@@ -148,6 +148,9 @@ pub struct KReplay {
     pub a: Instance,
     pub b: Instance,
     pub minimised: bool,
+    /// set for findings of the command-line phase (the instances are unused then)
+    #[serde(default)]
+    pub cli: Option<CliCase>,
 }
 
 /// the same stages through `driver::Driver::print_*` and the files it writes. `history` programs
@@ -427,6 +430,9 @@ fn items(src: &str) -> Vec<String> {
 }
 
 pub fn minimise(rp: &mut KReplay, mut attempts: usize) {
+    if rp.cli.is_some() {
+        return;
+    }
     let same = |rp: &KReplay| compare(&rp.source, &rp.a, &rp.b);
     // histories
     loop {
@@ -579,6 +585,7 @@ pub fn kworker(tier: &str, seed: u64, w: u64, n: u64) -> i32 {
                     a,
                     b,
                     minimised: false,
+                    cli: None,
                 };
                 let mut o = stdout.lock();
                 let _ = writeln!(o, "{}", serde_json::to_string(&serde_json::json!({"found": rp})).unwrap());
@@ -612,9 +619,112 @@ pub fn kworker(tier: &str, seed: u64, w: u64, n: u64) -> i32 {
     0
 }
 
+// ---------------------------------------------------------------------------------------------
+// the command line tool itself: `scc --no-color <stage> file` as separate OS processes under
+// seeded environment blocks; standard output, exit status and every file written must agree
+
+const CLI_STAGES: [&str; 5] = ["compile", "uniquify", "focus", "shrink", "linearize"];
+
+#[derive(Serialize, Deserialize, Clone, Debug)]
+pub struct CliCase {
+    pub stage: String,
+    pub env_a: Vec<(String, String)>,
+    pub env_b: Vec<(String, String)>,
+}
+
+fn cli_env(rng: &mut Rng) -> Vec<(String, String)> {
+    let mut e = vec![("TERM".to_string(), rng.pick(&["dumb", "xterm-256color", "vt100", "screen"]).to_string())];
+    if rng.pct(50) {
+        e.push(("NO_COLOR".into(), "1".into()));
+    }
+    if rng.pct(30) {
+        e.push(("CLICOLOR_FORCE".into(), "1".into()));
+    }
+    if rng.pct(30) {
+        e.push(("CLICOLOR".into(), rng.pick(&["0", "1"]).to_string()));
+    }
+    e.push(("COLUMNS".into(), rng.pick(&["20", "80", "132", "400"]).to_string()));
+    e.push(("LANG".into(), rng.pick(&["C", "en_US.UTF-8", "de_DE.UTF-8"]).to_string()));
+    e
+}
+
+/// build the tool from the tree under test (debug profile, as the repository's own tests do)
+fn build_scc() -> Result<String, String> {
+    let repo = crate::orch::repo_dir();
+    let o = Command::new("cargo")
+        .args(["build", "--offline", "-q", "-p", "scc", "--manifest-path", &format!("{repo}/Cargo.toml")])
+        .stdout(Stdio::null())
+        .stderr(Stdio::piped())
+        .output()
+        .map_err(|e| format!("cargo: {e}"))?;
+    if !o.status.success() {
+        return Err(format!("building scc failed: {}", String::from_utf8_lossy(&o.stderr).lines().rev().take(3).collect::<Vec<_>>().join(" | ")));
+    }
+    let bin = format!("{repo}/target/debug/scc");
+    if !std::path::Path::new(&bin).exists() {
+        return Err(format!("{bin} not found after the build"));
+    }
+    Ok(bin)
+}
+
+/// one run of the tool in a fresh directory; (exit status, stdout, files written)
+fn cli_run(bin: &str, dir: &str, src: &str, stage: &str, env: &[(String, String)]) -> Result<(Option<i32>, Vec<u8>, BTreeMap<String, Vec<u8>>), String> {
+    let _ = std::fs::remove_dir_all(dir);
+    std::fs::create_dir_all(dir).map_err(|e| e.to_string())?;
+    std::fs::write(format!("{dir}/p.sc"), src).map_err(|e| e.to_string())?;
+    let mut c = Command::new(bin);
+    c.args(["--no-color", stage, "p.sc"]).current_dir(dir).stderr(Stdio::null());
+    for k in ["TERM", "NO_COLOR", "CLICOLOR_FORCE", "CLICOLOR", "COLUMNS", "LANG", "RUST_BACKTRACE"] {
+        c.env_remove(k);
+    }
+    for (k, v) in env {
+        c.env(k, v);
+    }
+    let o = c.output().map_err(|e| format!("{bin}: {e}"))?;
+    let mut files = BTreeMap::new();
+    let mut stack = vec![std::path::PathBuf::from(format!("{dir}/target_scc"))];
+    while let Some(d) = stack.pop() {
+        let Ok(rd) = std::fs::read_dir(&d) else { continue };
+        for e in rd.flatten() {
+            let p = e.path();
+            if p.is_dir() {
+                stack.push(p);
+            } else if let Ok(b) = std::fs::read(&p) {
+                files.insert(p.strip_prefix(dir).unwrap_or(&p).to_string_lossy().to_string(), b);
+            }
+        }
+    }
+    let _ = std::fs::remove_dir_all(dir);
+    Ok((o.status.code(), o.stdout, files))
+}
+
+/// compare two runs of one stage; Some(message) if they differ
+fn cli_compare(bin: &str, tag: &str, src: &str, case: &CliCase) -> Result<Option<String>, String> {
+    let base = format!("{}/work/kcli-{}-{tag}", verif_dir(), std::process::id());
+    let a = cli_run(bin, &format!("{base}-a"), src, &case.stage, &case.env_a)?;
+    let b = cli_run(bin, &format!("{base}-b"), src, &case.stage, &case.env_b)?;
+    if a.0 != b.0 {
+        return Ok(Some(format!("`scc --no-color {} p.sc` exits with {:?} under {:?} and with {:?} under {:?}", case.stage, a.0, case.env_a, b.0, case.env_b)));
+    }
+    if a.1 != b.1 {
+        let (x, y) = (String::from_utf8_lossy(&a.1).to_string(), String::from_utf8_lossy(&b.1).to_string());
+        return Ok(Some(format!("standard output of `scc --no-color {} p.sc` differs between the environments {:?} and {:?}: {}", case.stage, case.env_a, case.env_b, first_diff(&x, &y))));
+    }
+    if a.2 != b.2 {
+        let name = a.2.keys().chain(b.2.keys()).find(|k| a.2.get(*k) != b.2.get(*k)).cloned().unwrap_or_default();
+        return Ok(Some(format!("file {name} written by `scc --no-color {} p.sc` differs between the environments {:?} and {:?}", case.stage, case.env_a, case.env_b)));
+    }
+    Ok(None)
+}
+
 pub fn replay(path: &str) -> Result<(KReplay, Option<(String, String)>), String> {
     let s = std::fs::read_to_string(path).map_err(|e| format!("{path}: {e}"))?;
     let rp: KReplay = serde_json::from_str(&s).map_err(|e| format!("{path}: {e}"))?;
+    if let Some(case) = &rp.cli {
+        let bin = build_scc()?;
+        let r = cli_compare(&bin, "replay", &rp.source, case)?.map(|m| (format!("cli-{}", case.stage), m));
+        return Ok((rp, r));
+    }
     let r = compare(&rp.source, &rp.a, &rp.b);
     Ok((rp, r))
 }
@@ -722,6 +832,48 @@ pub fn check(tier: &str) -> i32 {
     }
     let known = load_known();
     let mut known_lines: BTreeSet<String> = BTreeSet::new();
+    // phase 3: the command-line tool as separate OS processes under seeded environment blocks
+    let mut cli_runs = 0u64;
+    match build_scc() {
+        Err(e) => {
+            println!("HARNESS-ERROR: {e}");
+            return 2;
+        }
+        Ok(bin) => {
+            let progs = programs_for(seed, tier);
+            let n = if tier == "thorough" { 150 } else { 14 };
+            for (pi, (name, src)) in progs.iter().filter(|(_, s)| s.len() < 6000).take(n).enumerate() {
+                let mut rng = Rng::keyed(seed, pi as u64, "k-cli");
+                let stage = CLI_STAGES[rng.below(CLI_STAGES.len())].to_string();
+                let case = CliCase { stage, env_a: cli_env(&mut rng), env_b: cli_env(&mut rng) };
+                cli_runs += 2;
+                match cli_compare(&bin, &format!("{pi}"), src, &case) {
+                    Err(e) => {
+                        println!("HARNESS-ERROR: {e}");
+                        return 2;
+                    }
+                    Ok(None) => {}
+                    Ok(Some(message)) => {
+                        let inst = Instance { via_driver: false, keys: 1, history: vec![], repeat: 0, order: 0 };
+                        found.push(KReplay {
+                            engine: "K".into(),
+                            property: "C17".into(),
+                            class: "Nondeterminism".into(),
+                            stage: format!("cli-{}", case.stage),
+                            message,
+                            verif_seed: seed,
+                            name: name.clone(),
+                            source: src.clone(),
+                            a: inst.clone(),
+                            b: inst,
+                            minimised: true,
+                            cli: Some(case),
+                        });
+                    }
+                }
+            }
+        }
+    }
     let mut viol_lines = Vec::new();
     let mut violations = 0;
     found.sort_by(|a, b| a.source.len().cmp(&b.source.len()));
@@ -782,12 +934,13 @@ pub fn check(tier: &str) -> i32 {
             "stage_comparisons": total.stage_comparisons,
             "cross_process_comparisons": cross,
             "cross_process_differences": cross_diff.len(),
+            "command_line_tool_processes_run": cli_runs,
             "worker_processes": nw,
             "environment_blocks": envs,
             "runs_per_hour": if wall > 0.0 { (total.histories as f64 / wall * 3600.0) as u64 } else { 0 },
             "fault_kinds_injected": {"hash_key_sets": total.instances, "histories_of_earlier_compilations": total.histories * 2, "environment_blocks": nw},
             "known_findings_reported": known_lines,
-            "components": {"real": ["fun (parser, checker)", "fun2core", "core_lang (focusing)", "core2axcut", "axcut (linearize)", "axcut2backend + three backends", "printer"], "stub": ["hash key source (getrandom seam)", "process = fresh OS thread plus separate worker processes"]}
+            "components": {"real": ["fun (parser, checker)", "fun2core", "core_lang (focusing)", "core2axcut", "axcut (linearize)", "axcut2backend + three backends", "printer"], "stub": ["hash key source (getrandom seam)", "process = fresh OS thread plus separate worker processes"], "real_processes": "scc --no-color <stage> run as OS processes under seeded environment blocks (TERM, NO_COLOR, CLICOLOR[_FORCE], COLUMNS, LANG): stdout, exit status and written files compared"}
         },
         "assumptions": ["std's RandomState draws its per-thread keys through the interposed `getrandom` symbol (checked at run time: hash_key_requests_served_by_seam > 0)", "label canonicalisation renames exactly the tokens defined as labels in the file", "exploration: a clean batch is evidence, not proof"],
         "wall_s": wall, "violations": violations
